@@ -30,6 +30,7 @@ import (
 	"github.com/refraction-networking/conjure/pkg/transports/wrapping/min"
 	"github.com/refraction-networking/conjure/pkg/transports/wrapping/prefix"
 	pb "github.com/refraction-networking/conjure/proto"
+	"google.golang.org/protobuf/proto"
 )
 
 // ------------------------------------------------------------------------------------------
@@ -601,14 +602,14 @@ func c09Pipeline(t *testing.T, out *vlib.Out) {
 		fail := func(sig, what string) { out.OracleFail(sig, what, "pipeline case="+c.name) }
 		sent := int64(0)
 		if c.block {
-			// messages that parse and reach the liveness probe: build through the real wrapper path is
-			// heavy; instead feed garbage (parse error) to measure the distributor only, plus hold
-			// workers by sending while none is receiving: with garbage workers never block, so use a
-			// burst much larger than workers+buffer and require that the feeder is never blocked.
+			// N valid registrations with distinct secrets; every worker that takes one blocks inside the
+			// liveness probe (gate), so at most workers + buffer messages can be accepted and the rest
+			// must be dropped and counted — without ever blocking the feeder.
+			const N = 300
 			feederDone := make(chan struct{})
 			go func() {
-				for i := 0; i < 20000; i++ {
-					in <- garbage
+				for i := 0; i < N; i++ {
+					in <- c09ValidMsg(1000 + i)
 					atomic.AddInt64(&sent, 1)
 				}
 				close(feederDone)
@@ -616,16 +617,37 @@ func c09Pipeline(t *testing.T, out *vlib.Out) {
 			select {
 			case <-feederDone:
 			case <-time.After(20 * time.Second):
-				fail("C09:distributor-blocked", fmt.Sprintf("feeder delivered only %d of 20000 messages in 20 s", atomic.LoadInt64(&sent)))
+				fail("C09:distributor-blocked", fmt.Sprintf("with all workers busy the feeder delivered only %d of %d messages in 20 s", atomic.LoadInt64(&sent), N))
 			}
 			out.Checked()
-			time.Sleep(50 * time.Millisecond)
+			time.Sleep(100 * time.Millisecond)
 			rec := atomic.LoadInt64(&rm.totalIngestMessages)
-			if rec != atomic.LoadInt64(&sent) {
-				fail("C09:received-miscounted", fmt.Sprintf("sent %d, counted %d", sent, rec))
+			drop := atomic.LoadInt64(&rm.totalDroppedMessages)
+			started := atomic.LoadInt64(&lv.probes)
+			bufcap := int64(c.workers / jobBufferDivisor)
+			if s := atomic.LoadInt64(&sent); s == N {
+				if rec != N {
+					fail("C09:received-miscounted", fmt.Sprintf("sent %d, counted %d", N, rec))
+				}
+				if started > int64(c.workers) {
+					fail("C09:more-in-flight-than-workers", fmt.Sprintf("%d probes in flight with %d workers", started, c.workers))
+				}
+				if drop < N-int64(c.workers)-bufcap || drop > N-started {
+					fail("C09:dropped-miscounted", fmt.Sprintf("sent %d, in flight %d, buffer capacity %d, counted as dropped %d", N, started, bufcap, drop))
+				}
 			}
 			out.Checked()
 			close(lv.gate)
+			// conservation once the workers have drained the buffer: processed + dropped = received
+			deadline := time.Now().Add(10 * time.Second)
+			for time.Now().Before(deadline) && atomic.LoadInt64(&lv.done)+drop < atomic.LoadInt64(&sent) {
+				time.Sleep(5 * time.Millisecond)
+			}
+			if got := atomic.LoadInt64(&lv.done) + drop; got != atomic.LoadInt64(&sent) {
+				fail("C09:message-lost", fmt.Sprintf("sent %d, processed %d + dropped %d", atomic.LoadInt64(&sent), atomic.LoadInt64(&lv.done), drop))
+			}
+			out.Checked()
+			out.Count("pipeline:overload:checked")
 		} else {
 			stopFeed := make(chan struct{})
 			feedDone := make(chan struct{})
@@ -745,4 +767,25 @@ func c09ReloadLoop(rm *RegistrationManager, stop time.Time, wg *sync.WaitGroup) 
 		c09Reload(rm, conf)
 		time.Sleep(time.Millisecond)
 	}
+}
+
+// c09ValidMsg builds a registration message (as it arrives over ZMQ) that parses, validates and
+// needs a liveness probe: API source, IPv4 only, min transport, known generation.
+func c09ValidMsg(i int) []byte {
+	v, gen, tr := uint32(3), uint32(1), pb.TransportType_Min
+	covert := "1.2.3.4:443"
+	src := pb.RegistrationSource_API
+	t := true
+	f := false
+	c2s := &pb.ClientToStation{ClientLibVersion: &v, Transport: &tr, CovertAddress: &covert, DecoyListGeneration: &gen, V4Support: &t, V6Support: &f}
+	secret := make([]byte, 32)
+	for j := range secret {
+		secret[j] = byte(i>>uint(8*(j%4))) ^ byte(j*13)
+	}
+	w := &pb.C2SWrapper{SharedSecret: secret, RegistrationPayload: c2s, RegistrationSource: &src, RegistrationAddress: []byte{192, 0, 2, 7}}
+	b, err := proto.Marshal(w)
+	if err != nil {
+		panic(err)
+	}
+	return b
 }
